@@ -173,4 +173,15 @@ SelectOf(r) == IF IsErr(r) THEN r
                ELSE IF r.k = "C" THEN r ELSE Err("AssertionError", "_select.list")
 
 Admissible(r) == ~IsErr(r) \/ r.cls = "SyntaxError"
+
+\* ---------------- derived attributes of a compiled selector (Element.focus/main, Call.focus/main)
+\* the focus of a selector is the variable marked ! or standing after the last > : `main` is the first focused
+\* element in the order captures-then-children at every level, `focus` says whether there is one
+RECURSIVE DMain(_)
+DMain(s) == IF s.k = "E" THEN (IF s.t1 THEN s ELSE None)
+            ELSE IF s.k # "C" THEN None
+            ELSE LET parts == s.caps \o s.kids
+                     hits == {i \in DOMAIN parts : DMain(parts[i]) # None}
+                 IN IF hits = {} THEN None ELSE DMain(parts[CHOOSE i \in hits : \A j \in hits : i <= j])
+DFocus(s) == DMain(s) # None
 =============================================================================
